@@ -162,7 +162,7 @@ def check(run):
         if not sites:
             continue
         base = docgen.render_xml(M)
-        j.case('m%d' % mi, fork=True).cmd('BIND 1').model('xml', base).dump('errors').end()
+        j.case('m%d' % mi, fork=True).cmd('BIND 1').model('xml', base).dump('errors').dump('doc').dump('flags').end()
         j.case('r%d' % mi, fork=True).cmd('BIND 1').model('xmlraw', base).dump('doc').end()
         for fi in range(per):
             S = rng.choice(sites)
@@ -182,7 +182,7 @@ def check(run):
             M.text.clear(); M.text.update(saved)
             cid = 'm%df%d' % (mi, fi)
             cases.append((cid, 'm%d' % mi, S, bad, x, base))
-            j.case(cid, fork=True).cmd('BIND 1').model('xml', x).dump('errors').end()
+            j.case(cid, fork=True).cmd('BIND 1').model('xml', x).dump('errors').dump('doc').dump('flags').end()
             j.case('r' + cid, fork=True).cmd('BIND 1').model('xmlraw', x).dump('errors').dump('doc').end()
     # declaration blocks: a fault inside declaration i keeps declarations 0..i-1
     DECLS = ['int d0 = 1;', 'const int d1 = 2;', 'bool d2;', 'typedef int[0,3] t3;', 't3 d4;', 'int d5[2] = {1, 2};', 'int f6(int a) { return a + d0; }', 'chan d7;', 'clock d8;', 'struct { int a; bool b; } d9 = {1, true};',
@@ -240,6 +240,21 @@ def check(run):
                      dict(xml=x, faulted_label=S['xpath'], text=bad, fault_free=diff[0], faulted=diff[1]),
                      shape='frame-leak' if leakish and ('@tmpl' in diff[1] or '@nested' in diff[1]) else
                            ('stray-fragment:location' if S['what'] == 'rate' and diff[0].startswith(S['line']) and leaves_stray_fragment(bad) else 'spill:' + S['what'] + ':' + re.sub(r'\d+', 'N', diff[0].split('=')[0])[:30]))
+        # an ill-typed (not ill-formed) label: the type checker still runs over the whole document; what it does to the other labels (the rewriting of invariants,
+        # the flags it derives from them) must be what it does in the fault-free document
+        # (diagnostics the builder itself raises - unknown names, ill-typed binders - keep the type checker from running at all, as a syntax error does)
+        tc_only = all('ctx="(typechecking)"' in l for cc in c['cmds'] if cc[0] == 'DUMP' and cc[1] == 'errors' for l in cc[2] if l.startswith('error'))
+        if errs and tc_only and not any(e[0].startswith('$syntax_error') for e in errs) and rr[bid]['status'] == 'ok':
+            keep = lambda cmds: [mask(l, S['field']) if l.startswith(S['line']) else l for l in doc_lines(cmds) if re.match(r't\d+ (loc|edge|bp) ', l)]
+            tb, tc = keep(rr[bid]['cmds']), keep(c['cmds'])
+            fl = lambda cmds: [l for cc in cmds if cc[0] == 'DUMP' and cc[1] == 'flags' for l in cc[2]]
+            if tb != tc:
+                diff = next(((p, q) for p, q in zip(tb + ['<end>'], tc + ['<end>']) if p != q), None)
+                run.fail('an ill-typed %s at %s changes what the type checker leaves in another label: %r became %r' % (S['what'], S['xpath'], diff[0][:160], diff[1][:160]),
+                         dict(xml=x, faulted_label=S['xpath'], text=bad, fault_free=diff[0], faulted=diff[1]), shape='typed-spill:' + S['what'] + ':' + re.sub(r'\d+', 'N', diff[0].split('=')[0])[:30])
+            elif S['what'] not in ('invariant',) and fl(rr[bid]['cmds']) != fl(c['cmds']):
+                run.fail('an ill-typed %s at %s changes the flags the document derives from its invariants and guards: %s became %s' % (S['what'], S['xpath'], fl(rr[bid]['cmds']), fl(c['cmds'])),
+                         dict(xml=x, faulted_label=S['xpath'], text=bad), shape='typed-spill:flags:' + S['what'])
     stats.update(xta_labels(run, thorough))
     bd = rr['dbase']
     base_lines = [l for l in doc_lines(bd['cmds']) if l.startswith('global ')]
